@@ -59,11 +59,11 @@ Section Seq.
   (* one call run to completion by thread 0: the op, then as many further steps as it can take *)
   Definition call (s : st) (o : op W) : st :=
     run S D W R nonzero initD wr wskip
-        ((0, Some o) :: repeat (0, None) (8 + 3 * length (reg _ _ _ _ s))) s.
+        ((0, Some o) :: repeat (0, None) (8 + 3 * length (reg s))) s.
   Definition run_seq (ops : list (op W)) (s : st) : st := fold_left call ops s.
-  Definition idle (s : st) : bool := match thr _ _ _ _ s 0 with Idle => true | _ => false end.
+  Definition idle (s : st) : bool := match thr s 0 with Idle => true | _ => false end.
   Definition logs_of (s : st) (n : nat) : list (list D) :=
-    map (fun c => match cbs _ _ _ _ s c with Some b => log _ _ b | None => [] end) (seq 0 n).
+    map (fun c => match cbs s c with Some b => log b | None => [] end) (seq 0 n).
 End Seq.
 
 (* Variable: each change is (previous, new) with previous = the value before and new <> previous *)
@@ -95,12 +95,12 @@ Definition agree (c : case) : bool :=
       let s := run_seq N (N * N) (N -> N) N (v_nonzero N N.eqb 0%N) (v_initD N 0%N) (v_wr N N.eqb (trf t))
                        (v_wskip N) (map (map_op vfun) ops) (init N (N * N) (N -> N) N 0%N) in
       idle _ _ _ _ s && leqb (leqb pair_eqb) (logs_of _ _ _ _ s ncb) logs
-      && leqb N.eqb (Model.rets _ _ _ _ s) rets && N.eqb (val _ _ _ _ s) final
+      && leqb N.eqb (Model.rets s) rets && N.eqb (val s) final
   | SSeq s0 ops ncb logs rets final =>
       let s := run_seq N (N * N) sop (N * N) s_nonzero s_initD s_wr s_wskip
                        (map (map_op sopf) ops) (init N (N * N) sop (N * N) s0) in
       idle _ _ _ _ s && leqb (leqb pair_eqb) (logs_of _ _ _ _ s ncb) logs
-      && leqb pair_eqb (Model.rets _ _ _ _ s) rets && N.eqb (val _ _ _ _ s) final
+      && leqb pair_eqb (Model.rets s) rets && N.eqb (val s) final
   | VFree G final subs =>
       v_chain 0%N G && N.eqb (fold_left (v_apply N) G 0%N) final
       && forallb (sub_ok v_shape (fold_log N (N * N) (v_apply N) 0%N) 0%N G final) subs
